@@ -53,9 +53,28 @@ DisplayName(f, mode) ==
     ELSE IF mode = "full" \/ ~fi.enc THEN fi.base
     ELSE f
 
-SideOf(dir, f) == {x \in Range(dir.side) : x.f = f}
-HasSide(dir, f) == SideOf(dir, f) # {}
-SideLines(dir, f) == (CHOOSE x \in SideOf(dir, f) : TRUE).text
+(* --------------------------- side-car files and their probes --------------------------- *)
+\* GopherEntry.handleeaext opens  <file><ext>  (for a directory  <dir>/<ext>)  for every extension of
+\* [GopherEntry] eaexts; only ".abstract" shows in a menu.  dir.side lists what is THERE:
+\*   [f, ext, kind, text]   f = a listed name, or "." for the directory being listed itself
+\*   kind "text"  a regular, readable side-car file with the lines `text`
+\*        "dir"   a DIRECTORY of that name (open() fails with EISDIR)
+\*        an errno name ("EACCES", "EIO", "EISDIR", "ENAMETOOLONG", ...): a regular file whose open() fails so
+\* A probe can also fail without any record: the name of a file plus the extension is longer than
+\* NAME_MAX (ENAMETOOLONG).  Outcomes: "found" | "absent" (ENOENT) | "fails" (any other error).
+EaExts == {".abstract", ".keywords", ".ask", ".3d"}
+NameMax == 255
+SideOf(dir, f, ext) == {x \in Range(dir.side) : x.f = f /\ x.ext = ext}
+Probe(dir, f, ext) ==
+    IF SideOf(dir, f, ext) # {}
+    THEN (IF \A x \in SideOf(dir, f, ext) : x.kind = "text" THEN "found" ELSE "fails")
+    ELSE IF FileInfo(f).kind = "file" /\ Len(f) + Len(ext) > NameMax THEN "fails"
+    ELSE "absent"
+FailingProbes(dir, f) == {ext \in EaExts : Probe(dir, f, ext) = "fails"}
+HasSide(dir, f) == Probe(dir, f, ".abstract") = "found"
+SideLines(dir, f) == (CHOOSE x \in SideOf(dir, f, ".abstract") : TRUE).text
+\* the manual does not say what an existing but unreadable side-car means for the abstract
+AbstractUnreadable(dir, f) == \E x \in SideOf(dir, f, ".abstract") : x.kind \notin {"text", "dir"}
 
 (* ======================================================================================= *)
 (*                            I M P L E M E N T A T I O N                                  *)
@@ -155,6 +174,8 @@ Merge(old, new) ==
 GenEntry(dir, f) ==
     [NewEntry(Base(dir) \o "/" \o f) EXCEPT
         !.type = SomeS(FileInfo(f).type), !.name = SomeS(DisplayName(f, dir.mode)), !.num = SomeI(0),
+        \* handleeaext: `except IOError: pass` - a probe that finds nothing OR FAILS (FailingProbes) leaves the
+        \* attribute unset; it never costs the entry (prep_entries would drop a child whose getentry() raises)
         !.abs = IF HasSide(dir, f) THEN SomeS(Join(SideLines(dir, f), "\n")) ELSE NoS]
 
 \* prep_entries + prep_entriesappend over the sorted names: list of entries (hidden ones skipped)
@@ -302,7 +323,8 @@ Overrides(dir, b) == b.path.s /\ IsDotSlash(b.path.v) /\ Listed(dir, TargetOf(b)
 RefGen(dir, f) ==
     [src |-> "gen", f |-> f, type |-> SomeS(FileInfo(f).type), name |-> DisplayName(f, dir.mode),
      sel |-> SomeS(Base(dir) \o "/" \o f), host |-> dir.srv.host, port |-> dir.srv.port, num |-> 0,
-     abs |-> IF HasSide(dir, f) THEN SideLines(dir, f) ELSE <<>>, abssrc |-> IF HasSide(dir, f) THEN "side" ELSE "none",
+     abs |-> IF HasSide(dir, f) THEN SideLines(dir, f) ELSE <<>>,
+     abssrc |-> IF HasSide(dir, f) THEN "side" ELSE IF AbstractUnreadable(dir, f) THEN "silent" ELSE "none",
      plus |-> FALSE, hidden |-> FALSE, named |-> FALSE, over |-> FALSE]
 
 \* only the fields the block sets replace those of the entry
@@ -465,13 +487,17 @@ ExtStripName(O, R) ==
 OverridesOnlySetFields(O, R) ==
     \A r \in Range(R) : r.src = "gen" => \E o \in Range(O.out) : MatchFields(o, r)
 Order(O, R) == \A i \in 1..Len(R) : MatchFields(O.out[i], R[i])
-SidecarBecomesAbstract(O, R) == \A i \in 1..Len(R) : R[i].abssrc # "field" => O.out[i].abs = R[i].abs
+SidecarBecomesAbstract(O, R) == \A i \in 1..Len(R) : R[i].abssrc \in {"side", "none"} => O.out[i].abs = R[i].abs
+\* every file of the directory that no block hides is in the menu (under its selector) - whatever
+\* happens while its side-cars are probed, and together with its overrides (the clauses below)
+StaysListed(O, R) == \A r \in Range(R) : r.src = "gen" => \E o \in Range(O.out) : o.sel = r.sel.v
 AbstractField(O, R) == \A i \in 1..Len(R) : R[i].abssrc = "field" => O.out[i].abs = R[i].abs
 
 \* name of the first clause that fails, "ok" if none
 Judge(O, R, H) ==
     IF ~O.ok THEN "Answered"
     ELSE IF ~HidesOnXorDash(O, R, H) THEN "HidesOnXorDash"
+    ELSE IF ~StaysListed(O, R) THEN "StaysListed"
     ELSE IF ~PlusMeansThisServer(O, R) THEN "PlusMeansThisServer"
     ELSE IF ~AddsWhenNotDotSlash(O, R) THEN "AddsWhenNotDotSlash"
     ELSE IF ~ExtStripName(O, R) THEN "ExtStripName"
